@@ -19,7 +19,7 @@ from typing import Dict, List, Optional, Tuple
 @dataclass
 class Variant:
     name: str
-    kind: str  # 'break' | 'benign'
+    kind: str  # 'break' | 'benign' | 'repair'
     edits: List[Tuple[str, str, str]]  # (module, old text, new text); old must occur exactly once
     expect: Optional[str] = None  # rule-id prefix expected among the new findings (break only)
     note: str = ""
@@ -215,6 +215,14 @@ def _one(job):
     keys = {f.key for f in res.findings}
     new = keys - set(base_keys)
     gone = set(base_keys) - keys
+    if v.kind == "repair":
+        # a variant that repairs a recorded (known) finding: that finding must disappear and nothing else may change
+        if new or ff:
+            return (v.name, v.kind, "FAILED", f"repair variant raises new findings / trips floors: {sorted(new)[:2]} {ff}")
+        hit = [k for k in gone if (v.expect is None or k.startswith(v.expect))]
+        if not hit:
+            return (v.name, v.kind, "FAILED", "repair variant does not remove the recorded finding")
+        return (v.name, v.kind, "ok", f"recorded finding gone: {hit[0][:120]}")
     if v.kind == "break":
         if ff:
             return (v.name, v.kind, "ok", "vacuity guard trips: " + "; ".join(ff))
